@@ -87,6 +87,7 @@ struct rs_thread {
 	int rank;
 	int no_park;
 	const char *role;
+	int frozen; /* scheduling decisions during which the thread is not eligible (a long stall chosen by the explorer) */
 	const char *file;
 	int line;
 	uint64_t pre_val;
@@ -102,6 +103,7 @@ static int g_argc;
 static char **g_argv;
 
 /* options */
+static int opt_freeze = 0; /* > 0: extra alternative at scheduling points: stall the running thread for that many decisions */
 static int opt_p = 1, opt_d = 0, opt_j = 1, opt_stateful = 0, opt_spurious = 0, opt_verbose = 0;
 static long opt_budget = 2000000, opt_exec_timeout = 60;
 static double opt_deadline = 0;
@@ -503,12 +505,23 @@ static void switch_to(int t)
 static int enabled_list(int *out)
 {
 	int n = 0;
-	if(TH[cur].state == T_RUNNABLE)
+	if(TH[cur].state == T_RUNNABLE && !TH[cur].frozen)
 		out[n++] = cur;
 	for(int k = 1; k < nth; ++k) {
 		int t = (cur + k) % nth;
-		if(TH[t].state == T_RUNNABLE)
+		if(TH[t].state == T_RUNNABLE && !TH[t].frozen)
 			out[n++] = t;
+	}
+	if(!n) {
+		/* only stalled threads are left: the stall ends */
+		int any = 0;
+		for(int t = 0; t < nth; ++t)
+			if(TH[t].frozen) {
+				TH[t].frozen = 0;
+				any = 1;
+			}
+		if(any)
+			return enabled_list(out);
 	}
 	return n;
 }
@@ -563,15 +576,30 @@ static void yield_blocked(void)
 	switch_to(en[c]);
 }
 
+static void thaw_tick(void)
+{
+	for(int t = 0; t < nth; ++t)
+		if(TH[t].frozen > 0)
+			TH[t].frozen--;
+}
+
 static void sched_point(void)
 {
+	thaw_tick();
 	if(++steps > (uint64_t)opt_budget || R->npoints > (uint64_t)opt_budget)
 		budget_report();
 	int en[RS_MAXT];
 	int n = enabled_list(en);
 	if(n < 2)
 		return;
-	int c = next_choice(n, K_SCHED);
+	/* optional extra alternative: stall the running thread for opt_freeze decisions and run the next one */
+	int can_freeze = opt_freeze > 0 && en[0] == cur;
+	int c = next_choice(n + can_freeze, K_SCHED);
+	if(c == n) {
+		me->frozen = opt_freeze;
+		rs_count(RS_NCOUNTERS - 2, 1);
+		c = 1;
+	}
 	if(en[c] != cur)
 		switch_to(en[c]);
 }
@@ -954,7 +982,7 @@ static void write_replay(const char *path, const struct pair *pairs, uint32_t np
 	for(int i = 1; i < g_argc; ++i)
 		if(strchr(g_argv[i], '=') && g_argv[i][0] != '-')
 			fprintf(f, " %s", g_argv[i]);
-	fprintf(f, "\nflags stateful=%d spurious=%d budget=%ld\n", opt_stateful, opt_spurious, opt_budget);
+	fprintf(f, "\nflags stateful=%d spurious=%d budget=%ld freeze=%d\n", opt_stateful, opt_spurious, opt_budget, opt_freeze);
 	fprintf(f, "plen %u\npairs %u\n", plen, npairs);
 	for(uint32_t i = 0; i < npairs; ++i)
 		fprintf(f, "%u %u %u\n", pairs[i].idx, pairs[i].alt, pairs[i].nalt);
@@ -1447,6 +1475,8 @@ int rs_main(int argc, char **argv, const struct rs_harness *h)
 			opt_stateful = 1;
 		else if(!strcmp(a, "--spurious-cas"))
 			opt_spurious = 1;
+		else if(!strcmp(a, "--freeze") && i + 1 < argc)
+			opt_freeze = atoi(argv[++i]);
 		else if(!strcmp(a, "--verbose"))
 			opt_verbose = 1;
 		else if(!strcmp(a, "--budget") && i + 1 < argc)
